@@ -1,5 +1,5 @@
 /-
-C02 helper lemmas (failing compressor, part 2b): the front end, `sync`, the repaired `finish` and the run over two pool
+C02 helper lemmas (failing compressor, part 2b): the front end, `sync`, `finish` and the run over two pool
 behaviours that agree where `G` holds (see BPFailStep.lean).
 -/
 import Sqfs.Proofs.BPFailStep
@@ -218,8 +218,8 @@ theorem syncGo_tr (H : Agrees P a G) (fuel : Nat) (s s' : Proc)
           rw [e0]
           exact e1
 
-theorem sync_tr (H : Agrees P a G) (s s' : Proc) (h : sync (withAns P a) s = .ok s') (hg : G s'.pool) :
-    G s.pool ∧ sync P s = .ok s' :=
+theorem syncDrain_tr (H : Agrees P a G) (s s' : Proc) (h : syncDrain (withAns P a) s = .ok s') (hg : G s'.pool) :
+    G s.pool ∧ syncDrain P s = .ok s' :=
   syncGo_tr H _ _ _ h hg
 
 theorem packFile_tr (H : Agrees P a G) (s : Proc) (f : InFile) (s' : Proc)
@@ -273,14 +273,14 @@ theorem packFiles_tr (H : Agrees P a G) (files : List InFile) (s s' : Proc)
       rw [e0]
       exact e1
 
-/-! ### the repaired `sync` / `finish`: `G` after a successful status check -/
+/-! ### `sync` / `finish` (the current code: `sync` ends with `get_status`): `G` after a successful status check -/
 
-/-- `syncChecked` over the behaviour `a`; `hst`: a zero answer of `get_status` means `G` (for `G = Healthy`: the answer is
+/-- `sync` over the behaviour `a`; `hst`: a zero answer of `get_status` means `G` (for `G = Healthy`: the answer is
 the status), `hrec`: the call itself keeps `G` -/
-theorem syncChecked_tr (H : Agrees P a G)
+theorem sync_tr (H : Agrees P a G)
     (hst : ∀ p, (poolStatus (withAns P a) p).2 = 0 → G p) (hrec : ∀ p, G p → G (p.record .getStatus p.table))
-    (s s' : Proc) (h : syncChecked (withAns P a) s = .ok s') : G s'.pool ∧ G s.pool ∧ syncChecked P s = .ok s' := by
-  unfold syncChecked at h ⊢
+    (s s' : Proc) (h : sync (withAns P a) s = .ok s') : G s'.pool ∧ G s.pool ∧ sync P s = .ok s' := by
+  unfold sync at h ⊢
   split at h
   · cases h
   · rename_i s1 hs1
@@ -289,7 +289,7 @@ theorem syncChecked_tr (H : Agrees P a G)
     · rename_i h0
       simp only [ne_eq, Decidable.not_not] at h0
       have g1 : G s1.pool := hst _ h0
-      obtain ⟨g0, e0⟩ := sync_tr H _ _ hs1 g1
+      obtain ⟨g0, e0⟩ := syncDrain_tr H _ _ hs1 g1
       simp only [Except.ok.injEq] at h
       have gp : G s'.pool := by
         rw [← h]
@@ -301,14 +301,14 @@ theorem syncChecked_tr (H : Agrees P a G)
       simp only [ne_eq, not_true_eq_false, if_false, Except.ok.injEq]
       exact h
 
-theorem finishChecked_tr (H : Agrees P a G)
+theorem finish_tr (H : Agrees P a G)
     (hst : ∀ p, (poolStatus (withAns P a) p).2 = 0 → G p) (hrec : ∀ p, G p → G (p.record .getStatus p.table))
-    (s s' : Proc) (h : finishChecked (withAns P a) s = .ok s') : G s'.pool ∧ G s.pool ∧ finishChecked P s = .ok s' := by
-  unfold finishChecked at h ⊢
+    (s s' : Proc) (h : finish (withAns P a) s = .ok s') : G s'.pool ∧ G s.pool ∧ finish P s = .ok s' := by
+  unfold finish at h ⊢
   split at h
   · cases h
   · rename_i s1 hs1
-    obtain ⟨g1, g0, e0⟩ := syncChecked_tr H hst hrec _ _ hs1
+    obtain ⟨g1, g0, e0⟩ := sync_tr H hst hrec _ _ hs1
     rw [e0]
     simp only
     split at h
@@ -320,22 +320,21 @@ theorem finishChecked_tr (H : Agrees P a G)
       split at h
       · cases h
       · rename_i s2 hs2
-        obtain ⟨g3, g2, e2⟩ := syncChecked_tr H hst hrec _ _ h
+        obtain ⟨g3, g2, e2⟩ := sync_tr H hst hrec _ _ h
         obtain ⟨_, e1⟩ := enqueueBlock_tr H _ _ _ hs2 g2
         refine ⟨g3, g0, ?_⟩
         rw [e1]
         exact e2
 
-theorem runProcV_checked_tr (H : Agrees P a G)
+theorem runProc_tr (H : Agrees P a G)
     (hst : ∀ p, (poolStatus (withAns P a) p).2 = 0 → G p) (hrec : ∀ p, G p → G (p.record .getStatus p.table))
-    (mb : Nat) (files : List InFile) (s' : Proc) (h : runProcV true (withAns P a) mb files = .ok s') :
-    G s'.pool ∧ runProcV true P mb files = .ok s' := by
-  unfold runProcV at h ⊢
+    (mb : Nat) (files : List InFile) (s' : Proc) (h : runProc (withAns P a) mb files = .ok s') :
+    G s'.pool ∧ runProc P mb files = .ok s' := by
+  unfold runProc at h ⊢
   split at h
   · cases h
   · rename_i s1 hs1
-    simp only [finishV, if_true] at h ⊢
-    obtain ⟨g2, g1, e1⟩ := finishChecked_tr H hst hrec _ _ h
+    obtain ⟨g2, g1, e1⟩ := finish_tr H hst hrec _ _ h
     obtain ⟨_, e0⟩ := packFiles_tr H _ _ _ hs1 g1
     have : packFiles P (create P mb) files = .ok s1 := e0
     rw [this]
